@@ -12,7 +12,7 @@ that moment.  Every problem / behaviour is emitted with its exact rational answe
 """
 META = {
     "claimed": True,
-    "engine": "Solvers.tla",
+    "engine": "Solvers.tla + SolverScale.tla",
     "text": ("TLC model-checks CGLS/PCGLS as a rational state machine <<x,r,s,p,gamma,k>> (all full-rank A in {-1,0,1}^(m x n), "
              "m,n<=2, shift in {0,1}, integer starts/right-hand sides in a box, unit-triangular preconditioners; a sample of "
              "size-3 problems in the thorough tier): residual invariants, orthogonality, termination within n steps, normal "
@@ -56,7 +56,21 @@ META = {
              "The harness builds the real arguments in that layout from the same exact numbers, requires the same residual checks "
              "with the same tolerances for every RETURNED point (a raised exception asserts nothing: observation layout_refused), "
              "exact images in the shape of the input for the projections, and that every argument buffer (shape, strides, dtype, "
-             "flags, bytes, the buffer behind a view, list items) is what it was before the call - also for all problems of kind cg."),
+             "flags, bytes, the buffer behind a view, list items) is what it was before the call - also for all problems of kind cg.  "
+             "SolverScale.tla (round 9): the SCALE dimension - the same problem in other physical units (A x 2^ea, b x 2^eb, x0 x 2^(eb-ea), "
+             "shift x 4^ea): the CGLS / PCGLS machine runs the problem as given and the problem in other units side by side, invariant "
+             "ScalingLaw (every state of the scaled run is the scaled state of the base run: iterate, residuals, iteration count, stop "
+             "flag of the RELATIVE rule), SolutionScales, GuardSilent, NonTrivial; PostScalingLaw for proximal-gradient problems built "
+             "from a KKT certificate, the projections / soft thresholding and Levenberg-Marquardt residual families; named deviation "
+             "AbsoluteStop (a start whose normal residual is below tol in absolute terms is returned) refuted.  THRESHOLD: PCGLS on both "
+             "sides of the public cuqi.config.MAX_DIM_INV (explicit inverse of P below, solves with P and P^T above), reached by "
+             "lowering the configuration value to n / n + 1 and by the default 2000 with the problem replicated block-diagonally 999 / "
+             "1000 times (BlockLaw), with symmetric (diagonal, SPD) and non-symmetric (lower / upper triangular) preconditioners; "
+             "NormalResidualInv / FiniteTermination / NormalEquations on both sides; named deviation TransposeReusesFactor (the "
+             "transposed solve re-uses the factors of P) refuted.  Replay: CGLS / PCGLS in both operator forms on the data scaled by the "
+             "checked pairs and by 2^-40 .. 2^40 (exact in binary floating point) must return 2^(eb-ea) x the spec's exact solution "
+             "(1e-8 relative to the units) after at least one iteration; FISTA / ISTA (abstol stated in the units of x), LM and the "
+             "projections likewise."),
     "note": ("Bounded sizes (n <= 3). Problems whose exact CG iterates exceed TLC's 32-bit integers are followed up to that point "
              "and then compared through their exact solution only (status 'abandoned' in the emitted case). FISTA/LM tolerances are "
              "derived from the solvers' own stopping rules (abstol/(t mu), gradtol |g0|). A float32 start vector makes CGLS / PCGLS keep "
